@@ -67,6 +67,26 @@ def rule_a(ctx):
                         'dropped or handed over later, e.g. through call_soon)' % field)
                 continue
             n += 1
+            # every credit counts: a normal path through the entry that does not reach request() is one on which
+            # there is no producer to ask (the subscription was tested and is None) - not one chosen by the value
+            with_req = {id(p) for p, _ in reqs}
+            dropped = None
+            for p in m.run(en, pre0):
+                if p.outcome != 'return' or id(p) in with_req:
+                    continue
+                no_producer = any(c.kind == 'cond' and c.data['key'][0] == 'isnone' and c.data['value'] is True and
+                                  ('subscription' in repr(c.data['key'][1]) or 'subscriber' in repr(c.data['key'][1]) or
+                                   'publisher' in repr(c.data['key'][1]))
+                                  for c in p.events)
+                if not no_producer:
+                    tests = [c for c in p.events if c.kind == 'cond' and field in repr(c.data['key'])]
+                    dropped = (p, tests[-1] if tests else None)
+            if dropped is not None:
+                rep.bad('C06.a', '%s / credit of the frame forwarded to Subscription.request' % en.name, en.func,
+                        'a path through the entry hands no credit to the producer%s: every REQUEST_N counts, whatever '
+                        'its value (1 .. 2^31-1)' % (' (after a test of frame.%s at line %s)' % (field, dropped[1].line)
+                                                     if dropped[1] is not None else ''))
+                continue
             bad = [e for p, e in reqs if not e.data.get('args') or
                    strip_epoch(e.data['args'][0].term) != ('attr', FRAME_TERM, field)]
             rep.add('C06.a', '%s / credit of the frame forwarded to Subscription.request' % en.name, en.func, not bad,
